@@ -124,6 +124,26 @@ def replay_history(ctx: Ctx, rec: Dict[str, Any], dtype: torch.dtype, kw: Dict[s
                     ctx.violation(f"simulate:{kind}:vol-var", f"{kind}: volatility^2 differs from the (non-negative part of the) variance", detail)
             except AttributeError:
                 pass
+    # the dtype requested LAST is the one the buffers have: to(other) after a simulation converts the registered series (same
+    # values, cast), and the next simulate() fills buffers of that dtype
+    if not half and rec["hist"]:
+        other = torch.float32 if dtype == torch.float64 else torch.float64
+        before = {k: v.clone() for k, v in prim.named_buffers()}
+        detail = {"kind": kind, "params": kw, "dtype": str(dtype), "to": str(other)}
+        prim.to(other)
+        ctx.count(n=1)
+        for name, b in prim.named_buffers():
+            if b.dtype != other:
+                ctx.violation(f"simulate:{kind}:dtype-after-to", f"{kind}.{name} is {b.dtype} after to({other}) (the instrument was built with dtype={dtype} and simulated)", detail)
+            elif b.shape != before[name].shape or not torch.equal(b, before[name].to(other)):
+                ctx.violation(f"simulate:{kind}:values-after-to", f"{kind}.{name} changed its values under to({other})", detail)
+        ev = rec["hist"][-1]
+        with warnings.catch_warnings():
+            warnings.simplefilter("ignore")
+            prim.simulate(n_paths=ev["n"], time_horizon=(ev["t"] - 1) * prim.dt)
+        for name, b in prim.named_buffers():
+            if b.dtype != other or tuple(b.shape) != (ev["n"], ev["t"]):
+                ctx.violation(f"simulate:{kind}:dtype-after-to", f"{kind}.{name} is {b.dtype} {tuple(b.shape)} after to({other}) and simulate()", detail)
 
 
 def generators(ctx: Ctx) -> None:
